@@ -6,6 +6,8 @@ from pathlib import Path
 VERIF = Path(__file__).resolve().parent.parent
 REPO = Path(os.environ.get("VERIF_REPO", "/repo"))
 WORK = VERIF / ".work"
+# alternative tree (VERIF_REPO=<scratch worktree>): separate scratch / build dirs, so such runs can go on next to runs against /repo
+ALT = "" if str(REPO) == "/repo" else "-alt-" + REPO.name
 SPEC = VERIF / "spec"
 HARNESS = VERIF / "harness"
 # runs against a scratch tree (VERIF_REPO=<worktree with a seeded change>) must not overwrite the evidence of the real tree
@@ -33,7 +35,7 @@ class Ctx:
     def __init__(self, pid, tier, seed):
         self.id, self.tier, self.seed = pid, tier, seed
         self.t0 = time.time()
-        self.work = WORK / pid
+        self.work = WORK / (pid + ALT)
         if self.work.exists():
             shutil.rmtree(self.work, ignore_errors=True)
         self.work.mkdir(parents=True)
@@ -67,7 +69,7 @@ def modfile_args():
     of /repo, without touching /repo: an alternative go.mod with the replace directive redirected."""
     if str(REPO) == "/repo":
         return []
-    d = WORK / "altmod"
+    d = WORK / ("altmod" + ALT)
     d.mkdir(parents=True, exist_ok=True)
     txt = (HARNESS / "go.mod").read_text().replace("=> /repo", "=> " + str(REPO))
     (d / "go.mod").write_text(txt)
@@ -78,7 +80,7 @@ def modfile_args():
 def go_build(cmd, race=False, tags="verif"):
     """Build harness/cmd/<cmd> against /repo's current working tree (hooks on)."""
     ensure_gosum()
-    bindir = WORK / ("bin" if str(REPO) == "/repo" else "bin-alt")
+    bindir = WORK / ("bin" + ALT)
     bindir.mkdir(parents=True, exist_ok=True)
     out = bindir / (cmd + ("-race" if race else ""))
     args = ["go", "build", "-tags", tags, "-o", str(out)] + modfile_args()
